@@ -538,6 +538,52 @@ def run_keybytes(case, agg):
     else:
         agg.ok(h8("c06b", case), f"ok:key-bytes:{case['via']}", sample=case if case["via"] == "main" and case["L"] and case["kb"] == "hex-ascii" else None)
 
+# -- one imported KMS module, one key NAME, several key stores (library use of the basic KMS) -------------------------
+KOBJ_ALPHABET = [(store, obj) for store in ("main", "alt", "rotating") for obj in ("reuse", "new")]
+
+
+def kmsobj_cases(tier):
+    return [{"steps": list(p)} for n in (1, 2, 3) for p in itertools.product(range(len(KOBJ_ALPHABET)), repeat=n)]
+
+
+def run_kmsobj(case, agg):
+    """the basic KMS imported ONCE as a module; every step encrypts with the key NAME 'aes' - in the main key store, in a
+    second store that holds another key under that name, or in a store whose key file is replaced before the step - on
+    the same (re-initialised) or a new KMS object, context given as a path or as JSON: the output of every step decrypts
+    with the key that is in <store>/aes.bin at that moment"""
+    import json as _json
+    from .c04 import _kms
+    aad = refcose.enc_structure(bytes.fromhex("a10103"))
+    steps = [KOBJ_ALPHABET[i] for i in case["steps"]]
+    with fresh_dir("c06o") as d:
+        rot = os.path.join(d, "rotating-store")
+        os.makedirs(rot)
+        kms = None
+        for si, (store, obj) in enumerate(steps):
+            if store == "rotating":
+                key = vkeys._seed(f"rotating-{si}", 32)
+                open(os.path.join(rot, "aes.bin"), "wb").write(key)
+                kd = rot
+            elif store == "alt":
+                kd, key = vkeys.key_dir_alt(), vkeys.aes_key("aes_alt")
+            else:
+                kd, key = vkeys.key_dir(), vkeys.aes_key("aes")
+            ctx = kd if si % 2 == 0 else _json.dumps({"keys_directory": kd})
+            label = f"KMS object history {steps[:si + 1]} (key name 'aes' everywhere)"
+            pt = plaintext(20 + si, si)
+            try:
+                if kms is None or obj == "new":
+                    kms = _kms().suit_kms_factory()
+                kms.init_kms(ctx)
+                nonce, tag, ct = kms.encrypt(plaintext=pt, key_name="aes", context=ctx, aad=aad)
+            except Exception as e:
+                agg.viol(f"C06:kms-object/failed/{type(e).__name__}", f"{label}: {type(e).__name__}: {str(e)[:200]}")
+                return
+            if refcose.aes_gcm_decrypt(key, nonce, ct, tag, aad) != pt:
+                agg.viol("C06:kms-object/decrypt", f"{label}: the output of step {si + 1} does not decrypt with the key that is in {store}/aes.bin")
+                return
+    agg.ok(h8("c06o", case), f"ok:kms-object:steps={len(steps)}", sample=case if case["steps"] == [0, 2, 4] else None)
+
 
 INPLACE = [("enc", "encrypted_content.bin"), ("enc", "plain_text_digest.bin"), ("enc", "plain_text_size.txt"), ("enc", "suit_encryption_info.bin"),
            ("gi-blob", "encrypted_content.bin"), ("gi-blob", "suit_encryption_info.bin"), ("gi-key", "suit_encryption_info.bin"),
@@ -707,6 +753,8 @@ def plan(tier):
                   rule="all sequences of <= 3 encryptions {stock, second KMS script of the same file name} x {main, new Encryptor, reused Encryptor}; "
                        "sequences of <= 2 also with NCS_SUIT_KMS_SCRIPT / ZEPHYR_BASE naming other scripts"),
         CaseStage("key-names", lambda: keyname_cases(tier), run_keyname, chunk=1, rule="AES key names with dots (sibling with the truncated name present / absent) x library / main / CLI"),
+        CaseStage("kms-object-histories", lambda: kmsobj_cases(tier), run_kmsobj,
+                  rule="all sequences of <= 3 steps over {main store, second store with another key under the same name, store whose key file is replaced} x {same KMS object, new object} on ONE imported KMS module"),
         CaseStage("key-file-contents", lambda: keybytes_cases(tier), run_keybytes, rule="8 key files whose 32 bytes look like text (hex, digits, base64, line break at the end, BOM, armour) x library / main x 2 lengths"),
         CaseStage("input-at-output-path", lambda: inplace_cases(tier), run_inplace, chunk=1,
                   rule="every input of both sub-commands stored under every artifact name of the output directory x main / CLI"),
